@@ -7,7 +7,8 @@ binary is built from the scratch copy into the self-test's own directory, and th
 check uses (cmd/vres local / remote, driven by the TLC-written vectors) are run against it.  A mutation is
 CAUGHT when vres reports at least one violation, MISSED when everything is judged fine, INCONCLUSIVE otherwise.
 
-usage: python3 checks/c05_selftest.py [-seed N] [name ...]
+usage: python3 checks/c05_selftest.py [-seed N] [name ...]   (code mutations)
+       python3 checks/c05_selftest.py --spec                  (mutants of Results.tla must be refuted by TLC)
 """
 import json
 import os
@@ -47,8 +48,55 @@ def sh(cmd, cwd=None, timeout=1800):
     return subprocess.run(cmd, cwd=cwd, env=vlib.go_env(), timeout=timeout, stdout=subprocess.PIPE, stderr=subprocess.STDOUT, text=True)
 
 
+# spec mutants: the same mistakes made in the model must be refuted by TLC (the properties are not vacuous)
+SPEC_MUTANTS = [
+    ("spec_finish_without_size_check", "  /\\ IF GRDone(SrcState(r)) /\\ rd[r].pos >= SrcStatSize(r)\n     THEN rd' = [rd EXCEPT ![r].pc = \"closed\"]",
+     "  /\\ IF GRDone(SrcState(r))\n     THEN rd' = [rd EXCEPT ![r].pc = \"closed\"]", ["NoEarlyEnd", "CloseOnlyWhenFinal"]),
+    ("spec_size_check_gt", "  /\\ IF GRDone(SrcState(r)) /\\ rd[r].pos >= SrcStatSize(r)\n     THEN rd' = [rd EXCEPT ![r].pc = \"closed\"]",
+     "  /\\ IF GRDone(SrcState(r)) /\\ rd[r].pos > SrcStatSize(r)\n     THEN rd' = [rd EXCEPT ![r].pc = \"closed\"]", ["EndsWhenDone", "temporal"]),
+    ("spec_start_offset_plus_one", "rd' = [rd EXCEPT ![r] = [pc |-> \"wait\", p |-> p, pos |-> p, sent |-> <<>>]]",
+     "rd' = [rd EXCEPT ![r] = [pc |-> \"wait\", p |-> p, pos |-> p + 1, sent |-> <<>>]]", ["NoGapNoRepeat"]),
+    ("spec_mirror_request_from_zero", "     ELSE IF disk < aSize THEN pcO' = \"connect\" /\\ reqFrom' = disk", "     ELSE IF disk < aSize THEN pcO' = \"connect\" /\\ reqFrom' = 0", ["MirrorPrefix", "NoGapNoRepeat"]),
+    ("spec_mirror_done_without_size", "     IF IsComplete(aState) /\\ disk >= aSize THEN pcO' = \"done\" /\\ UNCHANGED reqFrom", "     IF IsComplete(aState) THEN pcO' = \"done\" /\\ UNCHANGED reqFrom", ["MirrorDoneIsConverged", "MirrorConverges", "temporal"]),
+    ("spec_size_recorded_with_bytes", None, None, []),  # placeholder: nothing to refute, listed for symmetry
+]
+
+
+def spec_mutants(base):
+    """Each mutant of Results.tla must be refuted by TLC on the quick configuration."""
+    rows = []
+    src = open(os.path.join(vlib.SPECS, "Results.tla")).read()
+    cfg = open(os.path.join(vlib.SPECS, "Results_quick.cfg")).read().replace('"local_vectors.ndjson"', '""').replace('"fault_schedules.ndjson"', '""')
+    for name, old, new, expect in SPEC_MUTANTS:
+        if old is None:
+            continue
+        if src.count(old) != 1:
+            rows.append((name, "NOT-APPLICABLE", "pattern found %d times" % src.count(old)))
+            continue
+        d = os.path.join(base, name)
+        os.makedirs(d)
+        open(os.path.join(d, "Results.tla"), "w").write(src.replace(old, new))
+        open(os.path.join(d, "m.cfg"), "w").write(cfg)
+        p = subprocess.run(["java", "-XX:+UseParallelGC", "-cp", vlib.TLA_CP, "tlc2.TLC", "-metadir", os.path.join(d, "meta"), "-config", "m.cfg",
+                            "-workers", "8", "-deadlock", "Results"], cwd=d, stdout=subprocess.PIPE, stderr=subprocess.STDOUT, text=True, timeout=1800)
+        import re
+        m = re.search(r"Error: Invariant (\S+) is violated", p.stdout) or re.search(r"Error: Action property (\S+) is violated", p.stdout) \
+            or re.search(r"Error: Temporal property (\S+) was violated", p.stdout) or re.search(r"Error: (Temporal) properties were violated", p.stdout)
+        got = m.group(1) if m else None
+        rows.append((name, "REFUTED" if got else "NOT-REFUTED", "violated: %s (expected one of %s)" % (got, expect)))
+        print(rows[-1], flush=True)
+    return rows
+
+
 def main():
     args = sys.argv[1:]
+    if args and args[0] == "--spec":
+        base = os.path.join(vlib.VERIF, ".work", "C05_specmut")
+        shutil.rmtree(base, ignore_errors=True)
+        os.makedirs(base)
+        for row in spec_mutants(base):
+            print("  %-36s %-16s %s" % row)
+        return 0
     seed = "1"
     if "-seed" in args:
         i = args.index("-seed")
